@@ -67,7 +67,10 @@ type fakeRT struct {
 	gates     map[string]chan struct{}
 	reached   map[string]chan struct{} // closed when a call starts waiting on the gate
 	attempted map[string]bool
-	multi     int // produce requests that were not exactly one topic / one partition
+	multi     int // produce requests that were not exactly one topic / one partition, or whose acks / compression attribute
+	// differ from the Writer's configuration (options must be passed through unchanged)
+	wantAcks  int16
+	wantAttrs int16
 }
 
 func newFake() *fakeRT {
@@ -162,6 +165,11 @@ func (f *fakeRT) produce(r *produce.Request) (kafka.Response, error) {
 	}
 	topic := r.Topics[0].Topic
 	part := int(r.Topics[0].Partitions[0].Partition)
+	if r.Acks != f.wantAcks || int16(r.Topics[0].Partitions[0].RecordSet.Attributes)&7 != f.wantAttrs {
+		f.mu.Lock()
+		f.multi++
+		f.mu.Unlock()
+	}
 	var keys []string
 	rr := r.Topics[0].Partitions[0].RecordSet.Records
 	for rr != nil {
@@ -640,6 +648,13 @@ func run(sc *scenario, out *bufio.Writer) {
 		WriteBackoffMin: 200 * time.Microsecond, WriteBackoffMax: time.Millisecond,
 		RequiredAcks: kafka.RequireOne, Async: sc.async,
 	}
+	// non-default options that must reach the broker unchanged: acks (One / All; None is outside C01) and the codec
+	opt := len(sc.name)*7 + sc.bs + sc.ma + int(sc.bb%11)
+	if opt%3 == 0 {
+		w.RequiredAcks = kafka.RequireAll
+	}
+	w.Compression = kafka.Compression(opt % 5)
+	f.wantAcks, f.wantAttrs = int16(w.RequiredAcks), int16(w.Compression)
 	if sc.compl {
 		w.Completion = func(msgs []kafka.Message, err error) {
 			cbmu.Lock()
